@@ -130,6 +130,8 @@ def _case(draw, tier):
             "via_dict": draw(st.booleans()),
             "lon360": draw(st.booleans()),
             "face_coords": draw(st.booleans()),
+            # arguments equal to their documented default (start_index=0, fill_value=None) are left out of the call
+            "omit_defaults": draw(st.booleans()),
         }
     disk = draw(sampled_from([False, False, False, True])) if fmt in ("ugrid", "mpas", "mpas-dual", "scrip", "exodus", "esmf", "icon") else False
     return {"format": fmt, "mesh": mesh, "dialect": d, "disk": disk}
@@ -488,6 +490,12 @@ def run_case(case, ctx):
             kw["face_lon"], kw["face_lat"] = flon, flat
             info["xyz_c"] = c
         site += f":si={d['start_index']}:fill={d['fill']}:{dt}"
+        if d.get("omit_defaults"):
+            if kw["start_index"] == 0:
+                del kw["start_index"]
+                site += ":si-omitted"
+            if kw["fill_value"] is None:
+                del kw["fill_value"]
         g = ux.open_grid(kw) if d["via_dict"] else ux.Grid.from_topology(**kw)
     else:
         raise AssertionError(fmt)
